@@ -8,7 +8,7 @@ git -C /repo worktree add --detach "$WT" HEAD >/dev/null 2>&1 || exit 3
 res="{}"
 ( cd "$WT" && /venv/bin/python "$D/demo.py" >/dev/null 2>&1 ); clean=$?
 ( cd "$WT" && git apply "$D/patch.diff" ) ; ap=$?
-/tmp/seed/run_baseline.sh "$WT" > "$WT/.baseline.out" 2>&1; base=$?
+"$(dirname "$0")/run_baseline.sh" "$WT" > "$WT/.baseline.out" 2>&1; base=$?
 ( cd "$WT" && /venv/bin/python "$D/demo.py" > "$WT/.demo.out" 2>&1 ); patched=$?
 echo "$ID apply=$ap baseline=$base demo_clean=$clean demo_patched=$patched"
 if [ $ap = 0 ] && [ $base = 0 ] && [ $clean = 0 ] && [ $patched = 1 ]; then
